@@ -364,6 +364,10 @@ class TCPPacketGenerator(Device, OutMixIn):
             self.cwnd_avaialbe.put(True)
 
     def resend_packet(self, seqno: int):
+        if seqno not in self.sent_packets:
+            # duplicate ACKs for data that has not been sent yet (or for the
+            # end of the flow): there is no missing segment to retransmit
+            return
         resent_pkt = self.sent_packets[seqno]
         resent_pkt.time = self.env.now
         self.dprint(
